@@ -76,3 +76,26 @@ PROPS["C05"] = {
         {"test": "^TestRecorderFeedback$", "checks": 20000, "shards": 15, "timeout": 1200},
     ],
 }
+
+PROPS["C08"] = {
+    "pkg": "c08",
+    "technique": "property-based testing against a per-SSRC reference model (recorder level) and model-tracking of an end-to-end run with a controlled clock",
+    "level_text": "Generated arrival/report histories (5 000 quick / ~300 000 thorough) on the exported rfc8888.Recorder are compared with a reference "
+                  "model of cursor, first-copy arrival times, size-limit truncation and offsets computed in integer nanoseconds; an end-to-end property reads "
+                  "packets through the interceptor with a model clock and checks every written report against the model. Exploration.",
+    "level_note": "trusts: the model; maximum sizes <= 32768; truncation is accepted without prescribing the budgeting formula (at least min(pending, share)-2 "
+                  "entries, newest kept); offsets strictly between 8189/1024 s and 8190/1024 s may be 0x1FFD (floor) or 0x1FFE (RFC 8888 over-range rule); "
+                  "unwrapping is the library's (verified by C20)",
+    "assumptions": ["duplicates carry the same ECN marking as the first copy",
+                    "end to end: the single packet that may be in flight between reader and report loop at a tick is tracked as two candidate histories"],
+    "quick": [
+        {"test": "^TestRegress", "timeout": 120},
+        {"test": "^TestRecorderReports$", "checks": 6000, "timeout": 300},
+        {"test": "^TestInterceptorReports$", "checks": 300, "timeout": 300},
+    ],
+    "thorough": [
+        {"test": "^TestRegress", "timeout": 120},
+        {"test": "^TestRecorderReports$", "checks": 40000, "shards": 8, "timeout": 900},
+        {"test": "^TestInterceptorReports$", "checks": 1500, "shards": 8, "timeout": 900},
+    ],
+}
